@@ -24,6 +24,14 @@ MODS = {
     "C11": ["PrimitivModel.Props.C11.Move"],
 }
 DRIVERS = ["kernels"]
+STATED_NOT_PROVED = {
+    "C01": ["Primitiv.C01.Move.Adjoint.permute_dims_full (permute_dims_bw is the transpose of permute_dims_fw: reduces to the bijectivity of the mixed-radix re-encoding permJ)"],
+    "C02": ["Primitiv.C02.Move.Fwd.permute_dims_spec_full (permute_dims against the multi-index specification Spec.Move.IsPermuted)"],
+    "C03": ["Primitiv.C03.Move.Batch.bwd_law_full (data-level fold law for every backward kernel at once; proved: Batch.bwd_fold, Batch.slice_bw_fold, Batch.pick_bw_fold)"],
+    "C11": ["Primitiv.C11.Move.Kernel.permute_dims_in_bounds_full (write indices of permute_dims_fw / read indices of permute_dims_bw in bounds, every output element written once; proved: the sequential side, Kernel.permute_dims_fw_reads_in_bounds_partial)"],
+    "C10": [],
+    "C08": [],
+}
 FAMILY, HARNESS = "kernels", "h_kernels"
 W = 2 ** 32
 AXES_EXTRA = [7, 8, 9, W - 1]
@@ -865,7 +873,7 @@ def too_big(line, limit=400):
 def streams(rng, tier):
     """{'valid': [...], 'malformed': [...], 'exhaustive': [...]} — lines without the device token."""
     quick = tier == "quick"
-    per_op = 45 if quick else 500
+    per_op = 110 if quick else 500
     valid, seen = [], set()
     for op in ALL_OPS:
         for _ in range(per_op):
@@ -874,7 +882,7 @@ def streams(rng, tier):
                 seen.add(l)
                 valid.append(l)
     mal = []
-    for _ in range(500 if quick else 6000):
+    for _ in range(1500 if quick else 6000):
         l = gen_malformed(rng)
         if l not in seen and not too_big(l):
             seen.add(l)
@@ -932,7 +940,16 @@ def run_family(chk, prop):
         for m in MODS.get(p, []):
             if m not in mods:
                 mods.append(m)
+    try:
+        from translate import device_front
+        device_front.generate()
+    except Exception as e:   # the obligations over the table then fail and are reported below
+        chk.notes.append("translate/device_front.py failed: %r" % (e,))
     chk.obligations(mods, drivers=DRIVERS)
+    for p in props:
+        for t in STATED_NOT_PROVED.get(p, []):
+            if t not in chk.stated_not_proved:
+                chk.stated_not_proved.append(t)
     if not chk.rule:
         chk.rule = RULE
     st = streams(chk.rng, chk.tier)
@@ -974,9 +991,24 @@ def run_family(chk, prop):
             outs[l] = (i, m)
         return impl, model
     dis, judged, crashes = chk.correspond(FAMILY, HARNESS, [lines], stateful=False, post=post, timeout=900)
-    rep = lambda key, what, line, found=True, extra=None: chk.report(key, what, dict(
-        {"family": FAMILY, "harness": HARNESS, "lines": [line], "observed_impl": outs.get(line, ("", ""))[0],
-         "model": outs.get(line, ("", ""))[1], "expected_spec": expect(line) if line else None}, **(extra or {})), found_input=found)
+    pending = []   # (group, key, what, line, found, extra): reported below, a few per group, shortest input first
+
+    def rep(key, what, line, found=True, extra=None):
+        k = key.split(":")
+        pending.append((":".join(k[:3]), key, what, line, found, extra))
+
+    def flush():
+        groups = {}
+        for item in pending:
+            groups.setdefault(item[0], []).append(item)
+        chk.extra_cov["kernels_findings_by_class"] = {g: len(v) for g, v in sorted(groups.items())}
+        for g in sorted(groups):
+            for (_, key, what, line, found, extra) in sorted(groups[g], key=lambda it: (len(it[3]), it[3]))[:3]:
+                chk.report(key, what + (" [%d inputs of this class]" % len(groups[g]) if len(groups[g]) > 1 else ""), dict(
+                    {"family": FAMILY, "harness": HARNESS, "lines": [line], "observed_impl": outs.get(line, ("", ""))[0],
+                     "model": outs.get(line, ("", ""))[1], "expected_spec": expect(line) if line else None}, **(extra or {})),
+                    found_input=found)
+        del pending[:]
     flagged = set()
     for line in lines:
         impl, model = outs.get(line, ("skipped", ""))
@@ -1032,6 +1064,7 @@ def run_family(chk, prop):
         if r.get("at_exit"):
             chk.report("kernels:at-exit:" + r["kind"], "the harness process failed at exit: %s" % r["kind"],
                        {"family": FAMILY, "harness": HARNESS, "lines": lines[:5], "stderr": r.get("stderr", "")[-1500:]}, found_input=True)
+    flush()
     broken = chk.broken_obligations()
     if broken and not chk.violations:
         for name, why in broken.items():
